@@ -48,6 +48,8 @@ class NgapEnc(Stream):
         S = self.S
         cases = []
         per_msg = 1 if tier == "quick" else 6
+        if getattr(self, "search", False):
+            per_msg = 12            # a proof obligation broke: look harder for a value that exhibits it
         per_root = 2 if tier == "quick" else 10
         msgs = A.ngap_messages(S)
         for rep in range(per_msg):
